@@ -206,7 +206,7 @@ func (f *Frame) loopMods(lp *Loop) *ModSet {
 				ms.Maps[mapKey(in.Map.Type())+"!d"] = true
 				ms.Maps[mapKey(in.Map.Type())+"!v"] = true
 			case *ssa.Go:
-				ms.All = true
+				// the spawned goroutine runs concurrently; interference is not modelled (listed assumption)
 			case ssa.CallInstruction:
 				f.g.callMods(in.Common(), ms)
 			}
